@@ -156,7 +156,7 @@ func (r *Reader) declaredSlidePaths() []string {
 
 	var paths []string
 	for _, sldID := range r.presentation.SlideIdList.SlideId {
-		target := targets[sldID.RID]
+		target := targets[sldID.relID()]
 		if target == "" {
 			continue
 		}
